@@ -6,6 +6,7 @@ import (
 	"context"
 	"encoding/json"
 	"fmt"
+	"runtime"
 	"sync"
 	"testing"
 	"time"
@@ -24,7 +25,7 @@ type c10In struct {
 	Fnum   int64 `json:"fnum"` // randomizationFactor = fnum/fden (fden a power of two: exact float64)
 	Fden   int64 `json:"fden"`
 	Expo   bool  `json:"expo"`
-	Script []int `json:"script"` // per attempt: 0 nil, 1 error, 2 panic (missing = error)
+	Script []int `json:"script"` // per attempt: 0 nil, 1 error, 2 panic, 3 runtime.Goexit, 4 panic(nil) (missing = error); 2/3/4 all mean "the call does not come back"
 	Cancel int   `json:"cancel"` // -1, or the attempt during which the context gets cancelled
 	Cb     int   `json:"cb"`     // 0 none, 1 closed breaker around, 2 breaker forced open
 	Slow   int64 `json:"slow"`   // breaker slowCallDurationThreshold ns (0 = default 1m); only window totals are observed
@@ -83,6 +84,11 @@ func c10Run(in c10In) (obs c10Obs) {
 			return nil
 		case 2:
 			panic("c10 scripted panic")
+		case 3:
+			runtime.Goexit() // the wrapped call ends without returning and recover() == nil
+		case 4:
+			var nothing interface{}
+			panic(nothing) // go.mod says go < 1.21: recover() yields nil for this one
 		}
 		return c10Err{idx: i}
 	}
@@ -105,16 +111,16 @@ func c10Run(in c10In) (obs c10Obs) {
 	var err error
 	var ret time.Time
 	panicked := true
-	func() {
-		defer func() {
-			if r := recover(); r != nil {
-				_ = r
-			}
-		}()
+	// own goroutine: a scripted runtime.Goexit must only end the wrapped call
+	done := make(chan struct{})
+	go func() {
+		defer close(done)
+		defer func() { recover() }()
 		err = h(ctx)
 		ret = time.Now()
 		panicked = false
 	}()
+	<-done
 
 	obs.Calls = calls
 	switch e := err.(type) {
@@ -234,8 +240,8 @@ func c10Gen(r *vfRand, adv bool) (in c10In) {
 	if s < n {
 		in.Script[s] = 0
 	}
-	if r.Chance(1, 12) {
-		in.Script[r.Intn(n)] = 2
+	if r.Chance(1, 10) {
+		in.Script[r.Intn(n)] = r.PickInt(2, 2, 3, 4)
 	}
 	if in.Cancel >= 0 && r.Chance(1, 2) {
 		// make sure the cancelled attempt itself fails, so that the select is reached
